@@ -63,6 +63,24 @@ Theorem C13_weaver_interp_linear_values : forall s n s', step s (OInterpN n (IOw
 Proof. exact weaver_interp_linear_values. Qed.
 Print Assumptions C13_weaver_interp_linear_values.
 
+(** ---- function bodies REGENERATED from the source as glue terms (Gen/ProcessGlue.v), run by the interpreter of Model/GlueFun.v with
+     the leaves of Model/GlueLeaves.v (callees mean their models), are the hand-written models ---- *)
+From TW Require Import Model.GlueLeaves Gen.ProcessGlue Proofs.GlueProcessProofs.
+Open Scope string_scope.
+Theorem C13_glue_interpolate : forall x y nx,
+  outcome_arr (call_fun (process_callf (fun v => v)) array_methf no_apply no_pow process_functions "interpolate"
+     [("x", VArr x); ("y", VArr y); ("new_x", VArr nx); ("method", VStrV "linear")]) = Ok (interp_linear x y nx) /\
+  outcome_arr (call_fun (process_callf (fun v => v)) array_methf no_apply no_pow process_functions "interpolate"
+     [("x", VArr x); ("y", VArr y); ("new_x", VArr nx)]) = Ok (interp_linear x y nx) /\
+  outcome_arr (call_fun (process_callf (fun v => v)) array_methf no_apply no_pow process_functions "interpolate"
+     [("x", VArr x); ("y", VArr y); ("new_x", VArr nx); ("method", VStrV "constant")]) = interp_constant x y nx None /\
+  forall m, m <> "linear" -> m <> "constant" -> m <> "cubic" -> m <> "spline" ->
+  outcome_arr (call_fun (process_callf (fun v => v)) array_methf no_apply no_pow process_functions "interpolate"
+     [("x", VArr x); ("y", VArr y); ("new_x", VArr nx); ("method", VStrV m)]) = Raise ValueError.
+Proof. exact glue_interpolate. Qed.
+Print Assumptions C13_glue_interpolate.
+Close Scope string_scope.
+
 Example C13_example :
   list_eqb Qc_eqb (interp_linear [qz 0; qz 2; qz 3] [qz 1; qz 5; qz 2] [qz (-1); qz 1; qz 2; qf 5 2; qz 9])
                   [qz 1; qz 3; qz 5; qf 7 2; qz 2] = true.
